@@ -197,8 +197,10 @@ static int v_close(int fd)
 static void *v_malloc(size_t n)
 {
 	void *p = malloc(n);
-	if (p != NULL)
+	if (p != NULL) {
+		memset(p, 0xa5, n);	/* whatever the allocator left there */
 		n_alloc++;
+	}
 	return p;
 }
 
@@ -460,6 +462,7 @@ int main(void)
 			s = &slots[k];
 			memset(s, 0, sizeof(*s));
 			s->uid = next_uid++;
+			memset(&s->pump, 0xa5, sizeof(s->pump));	/* the application's struct is full of garbage: only its public members are assigned */
 			s->pump.from_fd = FROM_FD(k);
 			s->pump.to_fd = TO_FD(k);
 			s->pump.cookie = s;
